@@ -591,6 +591,7 @@ func c14Guard2(measure bool, f func() func() string) c14Run {
 // implementation side of one op + the Go oracle
 
 type c14Exec struct {
+	readErrHung bool // a wreaderr call did not return: the remaining ones are skipped
 	c       *Ctx
 	fail    func(lib.Failure)
 	measure bool
@@ -735,6 +736,8 @@ func (x *c14Exec) exec(op string) string {
 		return x.execFrame(op, w[0] == "wfalloc", uint32(pv), wire.BitcoinNet(nt), b)
 	case "wconcurrent":
 		return x.parseConcurrent(op, w)
+	case "wreaderr":
+		return x.parseReadErr(op, w)
 	case "wstream":
 		if len(w) != 4 {
 			return "bad-args"
@@ -1798,6 +1801,7 @@ func runC14(c *Ctx) error {
 	c.R.Rule = "corpus first (witness of the repaired defect C14-F1: 109-byte version frame with an inflated user-agent var-int). ops: wenc/wwrite (round trip of random messages of the 16 kinds + protoconf, mostly well-formed, 1 in 5 with one WF clause spoiled, x 12 negotiated protocol versions (every threshold of protocol.go with neighbours) + 5 outside, both MessageEncoding values, 4 networks), " +
 		"wframe/wdec (mutation stream over valid frames of EVERY command of makeEmptyMessage: bit flips in header/payload, truncation, length-field and count-var-int inflation, splicing, random payloads and streams, command-field damage; checksum repaired in most cases so that the decoder is reached), " +
 		"wstream (ReadMessage repeatedly on ONE reader: 2-4 frames, a frame rejected for wrong magic / unknown or non-UTF-8 command / per-command oversize / bad checksum / undecodable payload with payload length in {0,1,10239,10240,10241,20480,30720,40960,k*10240,random}, the payload filled with embedded VALID frames, followed by valid frames, sometimes a cut or stray tail; Go oracle walks the stream by the declared lengths only: every valid frame after a rejected one is returned intact, the reader stands at the next frame boundary after every call, nothing inside a rejected payload is handed out), " +
+		"wreaderr (oracle only: ReadMessage fed from readers that, after FEWER payload bytes than the header announced, fail instead of ending — (0,err) with err in {io.EOF, io.ErrUnexpectedEOF, net.ErrClosed, os.ErrDeadlineExceeded, ECONNRESET, custom}, three (0,nil) first, one byte per Read, and real loopback TCP connections closed locally / past their read deadline / reset — for every place the read can stand: discardInput after wrong magic / unknown / non-UTF-8 command / per-command oversize, the payload read of a valid header, the header read; announced lengths 1..256 MiB; each call under a 2 s watchdog must return an error, take no more than announced, make a bounded number of Read calls; signature c14-readmessage-hangs-on-read-error), " +
 		"var-int lattice, directed allocation candidates, wsha; last, oracle only: payloads cut inside every fixed-width integer read (uint8, uint16 of a var-int and of a port, uint32, uint64; consistent length and checksum), then wconcurrent = 8 goroutines at once doing BsvEncode / Bsvdecode (through a writer / reader that yield while the codec holds its scratch buffer) / WriteMessage / ReadMessage round trips of their own random well-formed messages for 1 s (8 s thorough), each compared with an expectation computed single-threaded beforehand (signature c14-concurrent-roundtrip-mismatch). A round-trip case is non-trivial when the message has at least one field; a mutation case when the frame has a full header and differs from its valid source; distinct by op line. " +
 		"Oracle (Go, independent of the model): WF(m) => decode(encode(m)) renders equal to m and re-encodes to the same bytes, ReadMessage(WriteMessage(m)) = m with the frame layout recomputed by crypto/sha256; " +
 		"no panic, no hang (60 s), TotalAlloc delta of one decode <= 8 x MaxPayloadLength(command, pver) + 64 KiB for negotiated pvers; wrong magic / bad checksum / unknown command / oversize length / truncated frames are never accepted."
@@ -1813,6 +1817,7 @@ func runC14(c *Ctx) error {
 	} else {
 		g := &c14Gen{rng: lib.Rng(c.Seed, "c14"), c: c}
 		cases = append(c14Corpus(), g.streams()...)
+		cases = append(cases, g.readErrCases()...) // oracle only: readers that fail instead of ending (c14_readerr.go)
 		cases = append(cases, g.generate()...)
 		// oracle-only concurrent stream: the hostile corpus above (+ payloads cut inside every fixed-width integer
 		// read) is phase 1, the last op runs the concurrent round trips (c14_concurrent.go)
@@ -1863,10 +1868,10 @@ func runC14(c *Ctx) error {
 	if _, err := l.Ask(fmt.Sprintf("wcfg %d", uint32(config.ExcessiveBlockSize))); err != nil {
 		return err
 	}
-	// wconcurrent is oracle-only (the model has no interleavings): not sent to the model
+	// wconcurrent / wreaderr are oracle-only (the model has no interleavings, its reader is a byte list): not sent to the model
 	var lines []string
 	for _, cs := range cases {
-		if !strings.HasPrefix(cs.op, "wconcurrent ") {
+		if !c14OracleOnly(cs.op) {
 			lines = append(lines, cs.op)
 		}
 	}
@@ -1876,12 +1881,8 @@ func runC14(c *Ctx) error {
 	}
 	ans := make([]string, len(cases))
 	for i, k := 0, 0; i < len(cases); i++ {
-		if strings.HasPrefix(cases[i].op, "wconcurrent ") {
-			ans[i] = impl[i]
-			if impl[i] != "ok" {
-				ans[i] = "ok" // reported by the oracle (Failure), not as a model disagreement
-				impl[i] = "ok"
-			}
+		if c14OracleOnly(cases[i].op) {
+			ans[i] = impl[i] // judged by the oracle (Failure), never a model disagreement
 			continue
 		}
 		ans[i] = mans[k]
